@@ -504,10 +504,12 @@ def parse_timestamp_bytes(field_name: str, value: bytes):
             v_datetime = datetime(int(value[0:4]), int(value[5:7]), int(value[8:10]),
                                   int(value[11:13]), int(value[14:16]), int(value[17:19]),
                                   int(value[20:22]) * 100000, tzinfo=timezone.utc)
-        else:  # b'2020-06-15 19:45:39 UTC'
+        elif v_len == 23:  # b'2020-06-15 19:45:39 UTC'
             v_datetime = datetime(int(value[0:4]), int(value[5:7]), int(value[8:10]),
                                   int(value[11:13]), int(value[14:16]), int(value[17:19]),
                                   tzinfo=timezone.utc)
+        else:
+            raise ValueError(f"Date field '{field_name}' has unexpected format '{value}'")
     else:
         if v_len == 32:
             # ts = datetime.strptime(value.decode(), '%Y-%m-%d %H:%M:%S.%f%z')
